@@ -96,6 +96,14 @@ def gen_ops(ctx):
                         cy, cx = (c, c) if kind <= 1 else (r.below(ks), r.below(ks))
                         ops.append("mo %s %d %d %d %d %d %d | %s | %s" % (ch, w, h, ks, cy, cx, r.choice([1, 1, 2, 3, 0]), plane(se(ks, kind)),
                                                                         plane(vals(r, ch, w * h, r.choice(["rand", "rand", "two", "const", "narrow"])))))
+    # even-sized and off-centre structuring elements (any shape; judged on erode <= src <= dilate and complement duality),
+    # images thinner than the structuring element, symmetric shapes about an off-centre anchor
+    for ch in ("u8", "i16"):
+        for ks in (2, 4, 3, 5):
+            for _ in range(40 if th else 12):
+                w, h = r.choice([1, 1, 2, 3, r.range(1, M)]), r.choice([1, 2, 3, r.range(1, M)])
+                ops.append("mo %s %d %d %d %d %d %d | %s | %s" % (ch, w, h, ks, r.below(ks), r.below(ks), r.choice([1, 2, 3]), plane(se(ks, r.choice([1, 2, 2]))),
+                                                                plane(vals(r, ch, w * h, r.choice(["rand", "two", "edge"])))))
     for _ in range(150 if th else 40):
         w, h, ks = r.range(1, M), r.range(1, M), r.choice([1, 3, 5])
         ops.append("mo rgb8 %d %d %d %d %d %d | %s | %s" % (w, h, ks, ks // 2, ks // 2, r.choice([1, 2]), plane(se(ks, 0)),
@@ -106,6 +114,11 @@ def gen_ops(ctx):
             for h in range(1, M + 1):
                 for k in ((1, 3, 5, 7, 9) if th else (1, 3, 5)):
                     ops.append("me %s %d %d %d | %s" % (ch, w, h, k, plane(vals(r, ch, w * h, r.choice(["rand", "rand", "two", "narrow"])))))
+    if not th:                                            # windows much larger than the image (every sample replicated) and ties
+        for ch in ("u8", "i16"):
+            for w, h in ((1, 1), (1, 2), (2, 1), (2, 2), (3, 1), (1, 4), (3, 3)):
+                for k in (7, 9):
+                    ops.append("me %s %d %d %d | %s" % (ch, w, h, k, plane(vals(r, ch, w * h, r.choice(["rand", "two", "edge"])))))
     for _ in range(100 if th else 30):
         w, h = r.range(1, M), r.range(1, M)
         ops.append("me rgb8 %d %d %d | %s" % (w, h, r.choice([1, 3, 5]), " | ".join(plane(vals(r, "u8", w * h, "rand")) for _ in range(3))))
